@@ -6,6 +6,9 @@
 """
 import json, os, re, shutil, subprocess, sys
 ROOT = os.path.dirname(os.path.dirname(os.path.abspath(__file__)))
+# inside a `vp run --with-repo` snapshot the run's own copy of /repo is patched (so that several seed runs can go on in parallel)
+REPO = os.environ.get("VP_RUN_REPO") if os.environ.get("VP_RUN_VERIF") and os.path.realpath(ROOT) == os.path.realpath(os.environ["VP_RUN_VERIF"]) else "/repo"
+REPO = REPO or "/repo"
 SEEDED = os.path.join(ROOT, "seeded")
 WT = "/tmp/seedverify"
 FEATS = "backward-chaining,streaming"
@@ -63,9 +66,9 @@ def try_(sid, tier="quick", prop_override=None):
     d = os.path.join(SEEDED, sid)
     meta = json.load(open(os.path.join(d, "meta.json")))
     prop = prop_override or meta.get("property_for_check") or meta["property"]
-    rc, o = sh("git -C /repo status --porcelain")
-    assert o.strip() == "", "/repo not clean: " + o
-    rc, o = sh("git -C /repo apply %s" % os.path.join(d, "patch.diff"))
+    rc, o = sh("git -C %s status --porcelain" % REPO)
+    assert o.strip() == "", REPO + " not clean: " + o
+    rc, o = sh("git -C %s apply %s" % (REPO, os.path.join(d, "patch.diff")))
     assert rc == 0, o
     ev = os.path.join(ROOT, "evidence", prop + ".json")
     if os.path.exists(ev):
@@ -73,7 +76,7 @@ def try_(sid, tier="quick", prop_override=None):
     try:
         rc, o = sh("bin/check %s --tier %s" % (prop, tier), cwd=ROOT, timeout=7200)
     finally:
-        sh("git -C /repo checkout -- .")
+        sh("git -C %s checkout -- ." % REPO)
         sh("cargo build --release --offline --quiet", cwd=os.path.join(ROOT, "harness"))   # never leave a binary built from the patched tree
         if os.path.exists(ev + ".keep"):
             os.replace(ev + ".keep", ev)
